@@ -1,5 +1,6 @@
 import MitmVerif.Model.C24
 import MitmVerif.Model.C24_Route
+import MitmVerif.Model.C24_Cred
 import Driver.Proto
 open MitmVerif Driver MitmVerif.C24
 
@@ -118,8 +119,24 @@ def runVarLine (modes : List Mode) (evs : List (Nat × Bool × Ev)) : Option Str
   pure (" ".intercalate (outs.map (fun x => showStep x.2.1 x.2.2)) ++ " | " ++
     (if tl.isEmpty then "-" else ",".intercalate (tl.map toString)))
 
+def hexNat (s : String) : Option Nat :=
+  if s.isEmpty then none else
+  s.toList.foldl (fun acc c => match acc, Hex.value? c with
+    | some n, some d => some (n * 16 + d)
+    | _, _ => none) (some 0)
+
+/-- text on the wire: code points in hex separated by '.', "-" = empty -/
+def parseCps (s : String) : Option (List Nat) :=
+  if s = "-" then some [] else (s.splitOn ".").mapM hexNat
+
 def stepLine (line : String) : String :=
   match fields line with
+  | ["upval", t] =>
+    match parseCps t with
+    | some t => match MitmVerif.C24.Cred.upstreamAuthValue t with
+      | some v => "ok " ++ showBytes (v.map UInt8.ofNat)
+      | none => "err"
+    | none => "bad-op"
   | "routev" :: auth :: modes :: evs =>
     if auth ≠ "0" ∧ auth ≠ "1" then "bad-op" else
     match (modes.splitOn ",").mapM parseMode,
